@@ -216,6 +216,9 @@ func poolFaults(x *sched.S) []e3Fail {
 		if i := strings.Index(l, "POOL-DOUBLE-PUT"); i >= 0 {
 			return []e3Fail{{"pool-double-put", l[i:]}}
 		}
+		if i := strings.Index(l, "WAITGROUP-MISUSE"); i >= 0 {
+			return []e3Fail{{"waitgroup-add-concurrent-with-wait", l[i:]}}
+		}
 	}
 	return nil
 }
